@@ -17,6 +17,28 @@ pub open spec fn events_wf(evs: Seq<Event>) -> bool {
     forall|i: int| 0 <= i < evs.len() ==> #[trigger] fp_ok(evs, i)
 }
 
+// ---- node nesting (what rowan's GreenNodeBuilder needs) ----
+pub open spec fn tomb() -> Event { Event::Open { kind: MySyntaxKind::TombStone, forward_parent: None } }
+pub open spec fn nt_open(e: Event) -> bool { e is Open && e->kind != MySyntaxKind::TombStone }
+// effect of one event on rowan's node stack: a non-tombstone Open starts a node, Close finishes one
+pub open spec fn delta(e: Event) -> int { if nt_open(e) { 1 } else if e is Close { -1 } else { 0 } }
+pub open spec fn pd(evs: Seq<Event>, n: int) -> int
+    decreases n,
+{
+    if n <= 0 { 0 } else { pd(evs, n - 1) + delta(evs[n - 1]) }
+}
+// the stream is one well-nested tree: depth is >= 1 strictly inside and returns to 0 exactly at the end
+pub open spec fn balanced(evs: Seq<Event>) -> bool {
+    &&& evs.len() >= 2
+    &&& pd(evs, evs.len() as int) == 0
+    &&& forall|i: int| 1 <= i < evs.len() ==> #[trigger] pd(evs, i) >= 1
+}
+// every prefix of the stream has at least as many started nodes as finished ones (pending markers count 0)
+pub open spec fn pd_ok(evs: Seq<Event>) -> bool {
+    forall|i: int| 0 <= i <= evs.len() ==> #[trigger] pd(evs, i) >= 0
+}
+pub open spec fn is_tomb(e: Event) -> bool { e == tomb() }
+
 // a diagnostic's range is absent or the range of some token of the input
 pub open spec fn range_ok(ts: Seq<Token>, r: Option<TextRange>) -> bool {
     r is None || exists|i: int| 0 <= i < ts.len() && #[trigger] ts[i].range == r->0
@@ -25,15 +47,24 @@ pub open spec fn diags_ok(ts: Seq<Token>, ds: Seq<Option<TextRange>>) -> bool {
     forall|j: int| 0 <= j < ds.len() ==> range_ok(ts, #[trigger] ds[j])
 }
 
+// a MarkerClosed points at a completed node (an Open event with a real kind)
 pub open spec fn marker_ok(evs: Seq<Event>, index: usize) -> bool {
-    index < evs.len() && evs[index as int] is Open
+    index < evs.len() && nt_open(evs[index as int])
+}
+// a live MarkerOpened points at a still-pending tombstone
+pub open spec fn marker_ok_o(evs: Seq<Event>, index: usize) -> bool {
+    index < evs.len() && is_tomb(evs[index as int])
 }
 
 // events only grow (except for the explicit `events.pop()` undo) and Open positions stay Open
-pub open spec fn events_extend(old_evs: Seq<Event>, new_evs: Seq<Event>) -> bool {
+// `ex` is the index of the one pending marker the operation is allowed to complete (-1: none): every other pending
+// tombstone stays a tombstone, so a caller's open markers survive any call that is not handed them.
+pub open spec fn events_extend(old_evs: Seq<Event>, new_evs: Seq<Event>, ex: int) -> bool {
     &&& old_evs.len() <= new_evs.len()
     &&& forall|i: int| 0 <= i < old_evs.len() && #[trigger] old_evs[i] is Open ==> new_evs[i] is Open
     &&& forall|i: int| 0 <= i < old_evs.len() && !(#[trigger] old_evs[i] is Open) ==> new_evs[i] == old_evs[i]
+    &&& forall|i: int| 0 <= i < old_evs.len() && i != ex && is_tomb(#[trigger] old_evs[i]) ==> is_tomb(new_evs[i])
+    &&& forall|i: int| 0 <= i < old_evs.len() && nt_open(#[trigger] old_evs[i]) ==> nt_open(new_evs[i])
 }
 
 impl<'t> Parser<'t> {
@@ -47,6 +78,10 @@ impl<'t> Parser<'t> {
         &&& events_wf(self.events@)
         &&& count_adv(self.events@, self.events@.len() as int) >= nontrivia(self.input.tokens@, self.input.cursor as int)
         &&& diags_ok(self.input.tokens@, self.diagnostics.view())
+        // node nesting: started-minus-finished never negative on any prefix, and zero overall
+        // (a Close is only ever pushed together with turning a pending tombstone into a node)
+        &&& pd_ok(self.events@)
+        &&& pd(self.events@, self.events@.len() as int) == 0
     }
     // everything a parser operation must leave alone unless it says otherwise
     pub open spec fn same_input(&self, o: &Self) -> bool {
@@ -66,6 +101,62 @@ pub proof fn lemma_count_adv_prefix(a: Seq<Event>, b: Seq<Event>, n: int)
     decreases n,
 {
     if n > 0 { lemma_count_adv_prefix(a, b, n - 1); }
+}
+
+pub proof fn lemma_pd_prefix(a: Seq<Event>, b: Seq<Event>, n: int)
+    requires 0 <= n <= a.len(), n <= b.len(), forall|i: int| 0 <= i < n ==> delta(#[trigger] a[i]) == delta(b[i]),
+    ensures pd(a, n) == pd(b, n),
+    decreases n,
+{
+    if n > 0 { lemma_pd_prefix(a, b, n - 1); }
+}
+// pushing an event whose delta is 0 keeps pd_ok and the total
+pub proof fn lemma_pd_push0(evs: Seq<Event>, e: Event)
+    requires pd_ok(evs), delta(e) == 0,
+    ensures pd_ok(evs.push(e)), pd(evs.push(e), evs.len() as int + 1) == pd(evs, evs.len() as int),
+{
+    let n = evs.push(e);
+    assert forall|i: int| 0 <= i <= n.len() implies #[trigger] pd(n, i) >= 0 by {
+        if i <= evs.len() { lemma_pd_prefix(n, evs, i); assert(pd(evs, i) >= 0); }
+        else { lemma_pd_prefix(n, evs, evs.len() as int); assert(pd(evs, evs.len() as int) >= 0); }
+    }
+    lemma_pd_prefix(n, evs, evs.len() as int);
+}
+// same deltas everywhere (e.g. only a forward_parent changed): pd_ok and total carry over
+pub proof fn lemma_pd_same(a: Seq<Event>, b: Seq<Event>)
+    requires a.len() == b.len(), pd_ok(a), forall|i: int| 0 <= i < a.len() ==> delta(#[trigger] a[i]) == delta(b[i]),
+    ensures pd_ok(b), pd(b, b.len() as int) == pd(a, a.len() as int),
+{
+    assert forall|i: int| 0 <= i <= b.len() implies #[trigger] pd(b, i) >= 0 by { lemma_pd_prefix(a, b, i); assert(pd(a, i) >= 0); }
+    lemma_pd_prefix(a, b, a.len() as int);
+}
+// completing the pending tombstone at idx as a real node and appending its Close
+pub proof fn lemma_pd_close(evs: Seq<Event>, idx: int, kind: MySyntaxKind)
+    requires pd_ok(evs), 0 <= idx < evs.len(), is_tomb(evs[idx]), kind != MySyntaxKind::TombStone,
+    ensures ({ let n = evs.update(idx, Event::Open { kind, forward_parent: None }).push(Event::Close);
+               &&& pd_ok(n) &&& pd(n, n.len() as int) == pd(evs, evs.len() as int)
+               &&& forall|i: int| 0 <= i <= evs.len() ==> #[trigger] pd(n, i) == pd(evs, i) + if i > idx { 1int } else { 0int } }),
+{
+    let m = evs.update(idx, Event::Open { kind, forward_parent: None });
+    let n = m.push(Event::Close);
+    lemma_pd_bump(evs, m, idx, evs.len() as int);
+    assert forall|i: int| 0 <= i <= evs.len() implies #[trigger] pd(n, i) == pd(evs, i) + if i > idx { 1int } else { 0int } by {
+        lemma_pd_bump(evs, m, idx, i);
+        lemma_pd_prefix(n, m, i);
+    }
+    assert forall|i: int| 0 <= i <= n.len() implies #[trigger] pd(n, i) >= 0 by {
+        if i <= evs.len() { assert(pd(evs, i) >= 0); }
+        else { assert(pd(evs, evs.len() as int) >= 0); lemma_pd_prefix(n, m, evs.len() as int); }
+    }
+    lemma_pd_prefix(n, m, evs.len() as int);
+}
+pub proof fn lemma_pd_bump(evs: Seq<Event>, m: Seq<Event>, idx: int, n: int)
+    requires 0 <= idx < evs.len(), m.len() == evs.len(), 0 <= n <= evs.len(), delta(evs[idx]) == 0, delta(m[idx]) == 1,
+        forall|i: int| 0 <= i < evs.len() && i != idx ==> #[trigger] m[i] == evs[i],
+    ensures pd(m, n) == pd(evs, n) + if n > idx { 1int } else { 0int },
+    decreases n,
+{
+    if n > 0 { lemma_pd_bump(evs, m, idx, n - 1); }
 }
 
 pub proof fn lemma_nontrivia_step(ts: Seq<Token>, c: int)
